@@ -22,6 +22,7 @@ import DosModel.Proofs.Eval
 import DosModel.Proofs.ContentPath
 import DosModel.Gen.DosnodeConsts
 import DosModel.Gen.ChainHandlerFacts
+import DosModel.Gen.DosnodeFlow
 
 namespace Dos.Props.C07
 open Dos Dos.Content
@@ -330,6 +331,139 @@ theorem members_sign_identical (p : Nat) (mb1 mb2 : Query.Member) (r1 r2 : Query
   rw [hids, hl, hc]; exact ⟨rfl, rfl⟩
 
 example : (submitter [[1], [2], [3]] 7).bind (Query.contentFor 32 ⟨.user, 1, 7, 2, none⟩) = some [1, 7, 2, 2] := by decide
+
+/-! ### 7c–7f (round 5). per-member failure of the content stage; the group; the document bound
+
+The requester controls the data source: it may answer the members differently, cut a transfer, send
+an over-long body.  `ContentPath.groupRun` lets every member run `Query.handleQuery` on ITS OWN fetch
+result (`parsedAt i`, arbitrary: any set of members may fail); the non-submitters' shares, then
+arbitrary further messages (`extra`), reach the submitter's recovery stage. -/
+
+/-- **7c. a member whose content stage failed is silent** (since /repo 7f58072): a URL query whose
+fetch or selector evaluation failed AT THIS MEMBER – submitter or not, whatever the peers send –
+produces no report, no registration for the peers' shares, and no share (the one message handed to
+`p.Request` is nil and never reaches the wire). -/
+theorem failed_member_is_silent (C : Query.Crypto) (mb : Query.Member) (r : Query.Request)
+    (fc : List (Option Query.Msg)) (hk : r.kind = .url) (hp : r.parsed = none) :
+    (Query.handleQuery C Gen.padSize Gen.stripLen mb r fc).reports = [] ∧
+    (Query.handleQuery C Gen.padSize Gen.stripLen mb r fc).registered = false ∧
+    ∀ x ∈ (Query.handleQuery C Gen.padSize Gen.stripLen mb r fc).sent, x.2 = none := by
+  have h0 : ∀ sub, Query.contentFor Gen.padSize r sub = none := by
+    intro sub; simp [Query.contentFor, hk, hp]
+  obtain ⟨h1, h2⟩ := Query.silent_without_content C Gen.padSize Gen.stripLen mb r fc (fun s _ => h0 s)
+  refine ⟨h1, h2, ?_⟩
+  intro x hx
+  cases hs : submitter mb.ids r.last with
+  | none => unfold Query.handleQuery at hx; simp [hs] at hx
+  | some sub =>
+    by_cases hme : mb.me ≠ sub
+    · rw [(Query.nonsubmitter_out C _ _ mb r fc sub hs hme).2.2, h0 sub] at hx
+      simp at hx; subst hx; rfl
+    · unfold Query.handleQuery at hx
+      simp [hs, hme, h0 sub] at hx
+
+example : (Query.handleQuery ⟨fun _ _ => .ok [9], fun _ _ => true⟩ 32 20 ⟨[[1], [2], [3]], [1], fun c => c⟩
+    ⟨.url, 5, 0, 0, none⟩ [some ⟨2, [5], some [7], some [8]⟩, some ⟨2, [5], some [7], some [8]⟩]).reports = [] := by decide
+
+/-- **7d. whatever is reported in a group is exactly the content function of the request.**  For
+every member list, every per-member outcome of fetch and parse (`parsedAt`: any members may fail,
+members may be served different documents), every order of the peers' shares and every further
+message reaching the submitter's stage: a report is made by the member whose id is the submitter's,
+that member computed a content `c0` itself, and `result ‖ submitter = c0`, where `result` is the
+32-byte last randomness / `requestId ‖ lastRand ‖ seed` / the parse result of the document THE
+REPORTING MEMBER was served. -/
+theorem group_reports_content_function (C : Query.Crypto) (ids : List Bytes) (signOf : Nat → Bytes → Bytes)
+    (f : ContentPath.Fields) (parsedAt : Nat → Option Bytes) (order : List Nat)
+    (extra : List (Option Query.Msg)) (o : ContentPath.GroupOut)
+    (ho : ContentPath.groupRun C Gen.padSize Gen.stripLen ids signOf f parsedAt order extra = some o)
+    (hlen : ∀ id ∈ ids, id.length = 20) :
+    ∀ i rep, (i, rep) ∈ o.reports →
+      submitter ids f.last = some (ids.getD i []) ∧
+      ∃ c0, Query.contentFor Gen.padSize (ContentPath.requestAt f parsedAt i) (ids.getD i []) = some c0 ∧
+        rep.result ++ ids.getD i [] = c0 ∧
+        (match f.kind with
+          | .sys => rep.result = natBE 32 f.last
+          | .user => rep.result = natBytes f.rid ++ natBytes f.last ++ natBytes f.seed
+          | .url => parsedAt i = some rep.result) := by
+  intro i rep h
+  obtain ⟨fc, hfc⟩ := ContentPath.groupRun_reports C _ _ ids signOf f parsedAt order extra o ho i rep h
+  obtain ⟨hsub, c0, hc0⟩ := Query.reporter_is_submitter C _ _ _ _ fc rep hfc
+  simp only [ContentPath.requestAt] at hsub
+  have hmem : ids.getD i [] ∈ ids := by
+    unfold submitter at hsub
+    cases hi : submitterIdx f.last ids.length with
+    | none => simp [hi] at hsub
+    | some k => simp only [hi] at hsub; exact List.mem_of_getElem? hsub
+  have := path_reported_is_signed_minus_address C _ _ fc c0 hc0 (hlen _ hmem) rep hfc
+  exact ⟨hsub, c0, hc0, this.1, this.2.2⟩
+
+example : (ContentPath.groupRun (Query.symCrypto [[7, 1], [8, 1]] 2 3) 32 1 [[1], [2], [3]]
+    (fun i c => [1, UInt8.ofNat i, if c = [7, 1] then 0 else 1]) ⟨.url, 5, 0, 0⟩
+    (fun i => if i = 1 then none else some [7]) [2, 1, 0] []).map (fun o => (o.sent, o.nils, o.reports.map (·.2.result)))
+    = some ([2], [1], [[7]]) := by decide
+
+/-- **7e. members that are served alike sign alike**: the content a member signs is a function of the
+event fields, the member list and the transfer result at that member only – not of the member's
+identity, its key share, or anything else. -/
+theorem members_served_alike_sign_identical (E : Eval.Engines) (m : Nat)
+    (f : ContentPath.Fields) (tr : Nat → Option Bytes) (sel : Bytes) (i j : Nat) (h : tr i = tr j) (sub : Bytes) :
+    Query.contentFor Gen.padSize (ContentPath.requestAt f (fun k => ContentPath.memberParsed E m (tr k) sel) i) sub =
+    Query.contentFor Gen.padSize (ContentPath.requestAt f (fun k => ContentPath.memberParsed E m (tr k) sel) j) sub := by
+  simp only [ContentPath.requestAt, h]
+
+example : ContentPath.memberParsed ⟨fun d _ => .ok d, fun _ _ => .err⟩ 3 (some [1, 2, 3]) [0x24] = some [1, 2, 3]
+    ∧ ContentPath.memberParsed ⟨fun d _ => .ok d, fun _ _ => .err⟩ 3 (some [1, 2, 3, 4]) [0x24] = none := by decide
+
+/-- **7f. the document bound** (`dataFetch`, fix 2c0c671; the constant is regenerated): a transfer
+error gives no document; a complete body of at most 16 MiB is handed on byte for byte; a longer one
+is refused, and nothing of it is handed on. -/
+theorem fetch_bound (tr : Option Bytes) :
+    ContentPath.dataFetch Gen.DosnodeFlow.maxDocumentSize tr =
+      match tr with
+      | none => none
+      | some body => if body.length ≤ 16 * 2 ^ 20 then some body else none := by
+  have hm : Gen.DosnodeFlow.maxDocumentSize = 16 * 2 ^ 20 := by decide
+  cases tr with
+  | none => rfl
+  | some body =>
+    simp only [ContentPath.dataFetch, hm]
+    split <;> split <;> first | rfl | omega
+
+example : ContentPath.dataFetch 4 (some [1, 2, 3, 4]) = some [1, 2, 3, 4] ∧ ContentPath.dataFetch 4 (some [1, 2, 3, 4, 5]) = none := by decide
+
+/-- what is handed on IS the body served, and it respects the bound – for every bound and transfer -/
+theorem fetch_hands_on_the_body (m : Nat) (tr : Option Bytes) (d : Bytes)
+    (h : ContentPath.dataFetch m tr = some d) : tr = some d ∧ d.length ≤ m :=
+  ContentPath.dataFetch_some h
+
+example : ContentPath.dataFetch 10 (some [5, 6]) = some [5, 6] := by decide
+
+/-- the `fetch` lines of the correspondence run print lengths: they are the lengths of this function -/
+theorem fetch_length_line (m : Nat) (body : Bytes) :
+    (ContentPath.dataFetch m (some body)).map List.length = ContentPath.fetchLen m body.length :=
+  ContentPath.dataFetch_len m body
+
+example : ContentPath.fetchLen 16777216 16777216 = some 16777216 ∧ ContentPath.fetchLen 16777216 16777217 = none := by decide
+
+/-- nothing is signed for an over-long document or a failed transfer; otherwise the stage is the
+one-shot evaluation of section 6 on the body served -/
+theorem stage_signs_within_bound_only (E : Eval.Engines) (tr : Option Bytes) (sel addr : Bytes) :
+    ContentPath.stageQuery E Gen.DosnodeFlow.maxDocumentSize tr sel addr =
+      match tr with
+      | none => none
+      | some body => if body.length ≤ 16 * 2 ^ 20 then Eval.queryResult E ⟨body, sel, addr⟩ else none := by
+  unfold ContentPath.stageQuery
+  rw [fetch_bound]
+  cases tr with
+  | none => rfl
+  | some body =>
+    simp only []
+    by_cases hb : body.length ≤ 16 * 2 ^ 20
+    · rw [if_pos hb, if_pos hb]
+    · rw [if_neg hb, if_neg hb]
+
+example : ContentPath.stageQuery ⟨fun _ _ => .err, fun _ _ => .err⟩ 2 (some [1, 2]) [] [9] = some [1, 2, 9]
+    ∧ ContentPath.stageQuery ⟨fun _ _ => .err, fun _ _ => .err⟩ 2 (some [1, 2, 3]) [] [9] = none := by decide
 
 /-! ### 8. the submitter: all magnitudes, all group sizes, the list as announced -/
 
